@@ -401,6 +401,21 @@ func cmdCheck(args []string) int {
 		violations++
 	}
 
+	// self-check of the translator: a sample of proved post-conditions re-evaluated on real executions
+	scN := 24
+	if *tier == "thorough" {
+		scN = 240
+	}
+	sc := selfCheck(prog, all, scN, int64(seed), scratch)
+	for _, f := range sc.Failures {
+		engineErrors = append(engineErrors, "self-check: "+f)
+		fmt.Fprintf(os.Stderr, "govc: SELF-CHECK FAILED: %s\n", f)
+		path := filepath.Join(replayDir, "selfcheck_failure.json")
+		os.WriteFile(path, []byte(fmt.Sprintf("%q", f)), 0644)
+		fmt.Printf("VIOLATION property=%s replay=%s obligation=%q status=selfcheck-failed no-failing-input-found\n", prop, path, "govc translator self-check")
+		violations++
+	}
+
 	// bounded stand-ins (labelled bounded, never counted as proved)
 	if h, ok := boundedHarness[prop]; ok && *only == "" {
 		bv, be := runBounded(prop, h, *tier, int64(seed), *repo, *verif, replayDir, scratch)
@@ -491,6 +506,8 @@ func cmdCheck(args []string) int {
 			"unmodelled_calls": sortedKeys(unmodelled), "engine_warnings": sortedKeys(warnings),
 			"engine_errors": engineErrors,
 			"bounded":       boundedEvidence, "structural": structuralEvidence,
+			"traces_validated_against_impl": sc.Validated,
+			"translator_selfcheck": map[string]interface{}{"what": "proved post-conditions re-evaluated on real executions driven down the same path (inputs from the solver)", "sampled": sc.Sampled, "validated": sc.Validated, "no_model": sc.NoModel, "not_replayable": sc.NotReplayable, "failures": len(sc.Failures), "samples": sc.Samples},
 		},
 		"assumptions": assumptions,
 	}
